@@ -432,3 +432,13 @@ Section Atomic.
       rewrite P in Hp. apply expand_inv_in in Hp. apply (ids_linp_incl _ _ _ Hp).
   Qed.
 End Atomic.
+
+Arguments EInv {Op Ret} id op.
+Arguments ERes {Op Ret} id r.
+Arguments TIdle {Cell Op Ret}.
+Arguments TInvoked {Cell Op Ret} op.
+Arguments TLocked {Cell Op Ret} op.
+Arguments TRead {Cell Op Ret} op c.
+Arguments TDone {Cell Op Ret} op r.
+Arguments TUnlocked {Cell Op Ret} op r.
+Arguments init {L Cell Op Ret} s0 progs.
